@@ -245,7 +245,7 @@ func genScenarioC08(t *Tape, thorough bool) *Scenario {
 		o.MaxUnits = 5
 	}
 	o.TableIDReuse = cs.Chance(1, 2)     // tables re-announced with other column types, ids taken over
-	o.WideTables, o.WideChance = true, 6 // tables beyond 64 columns, some with all their by-reference columns behind the 64th
+	o.WideTables, o.WideChance = true, 4 // tables beyond 64 columns, some with all their by-reference columns behind the 64th
 	h := genHistoryFor(t, hs, &o)
 	sc := &Scenario{Hist: h, Start: pickStart(cs, h, true), ServerID: 1001}
 	a := cleanAttempt(cs, t.S("policy"))
@@ -617,6 +617,10 @@ func genFaultScenario(t *Tape, o *GenOpts, em faultEmphasis) *Scenario {
 		oc.MaxStmts, oc.MaxRows, oc.MaxCols, oc.MaxTables = 2, 2, 3, 4
 		oc.Prof = genProfile{MaxStr: 6, Kinds: []colKind{kTiny, kLong, kVarchar, kYear}}
 		oc.WideTables, oc.Rare = false, false
+		// only units whose every event makes the parser log (a scheduling point in
+		// this mode, see below): no ignorable events, no rotation
+		oc.UnitWeights = [numUnitKinds]int{uTxXID: 6, uTxCommit: 2, uDDL: 3, uAutoRows: 3}
+		oc.MaxFiles, oc.IgnorableGap, oc.Bulk, oc.LongIdle = 1, 0, 0, 0
 		o = &oc
 	}
 	h := genHistoryFor(t, hs, o)
@@ -708,7 +712,7 @@ func genFaultScenario(t *Tape, o *GenOpts, em faultEmphasis) *Scenario {
 			fillFault(fs, h, stopCancel, 3+fs.N(30), &q)
 			q.Pacing, q.BlockedAtStop, q.NoCancelCtx, q.StallAfterStop = 0, false, false, false
 			q.IdleFor, q.SlowHandler, q.EnvPanic, q.SkipRefused = 0, 0, false, false
-			q.Seg = []int{0, 1}[fs.N(2)]
+			q.Seg = 0 // the whole backlog sits in the socket buffer
 			// the parser pauses inside every event (its log calls are scheduling
 			// points), so the reader always has the next event ready
 			q.LogYield, q.DebugYield = true, true
